@@ -130,20 +130,23 @@ int main (void) {
 	/* build P -> C -> G, P -> S and check expiry = min over the creation path */
 	for (i = 0; i < 4; i++) {
 		d[i] = (fam == 2 && i == P) ? vrt_abs (800) : ((fam == 1 || fam == 3) ? nsync_time_no_deadline : mk_dl (i));
-		note[i] = x_new (parent_of[i], d[i]);
-		e = d[i];
-		if (parent_of[i] >= 0) {
-			nsync_time pe = x_expiry (parent_of[i]);
-			if (nsync_time_cmp (pe, e) < 0) e = pe;
-			if (x_is_notified (parent_of[i]) && nsync_time_cmp (d[i], nsync_time_zero) > 0 &&
-			    nsync_time_cmp (x_expiry (i), d[i]) != 0 &&
-			    nsync_time_cmp (x_expiry (i), nsync_time_zero) != 0) {
-				vrt_fail ("C08", "expiry of a child created under a notified parent is neither its own deadline nor zero");
+		{
+			/* expiry = min (own deadline, the parent's notification time at creation), a notified parent counting as zero --
+			   for EVERY note, also one whose own deadline has already passed (F12) */
+			int pn0 = parent_of[i] >= 0 ? x_is_notified (parent_of[i]) : 0, pn1, k, ok = 0;
+			note[i] = x_new (parent_of[i], d[i]);
+			pn1 = parent_of[i] >= 0 ? x_is_notified (parent_of[i]) : 0;
+			for (k = 0; k < 2 && !ok; k++) {
+				e = d[i];
+				if (parent_of[i] >= 0) {
+					nsync_time pe = (k == 0 ? pn0 : pn1) ? nsync_time_zero : x_expiry (parent_of[i]);
+					if (nsync_time_cmp (pe, e) < 0) e = pe;
+				}
+				ok = nsync_time_cmp (x_expiry (i), e) == 0;
 			}
-		}
-		if (!(parent_of[i] >= 0 && x_is_notified (parent_of[i])) &&
-		    nsync_time_cmp (x_expiry (i), e) != 0) {
-			vrt_fail ("C08", "nsync_note_expiry of note %d is not the minimum of the deadlines on its path to the root", i);
+			if (!ok) vrt_fail ("C08", "nsync_note_expiry of note %d is not the minimum of the deadlines on its path to the root", i);
+			if (parent_of[i] >= 0 && nsync_time_cmp (x_expiry (i), x_expiry (parent_of[i])) > 0)
+				vrt_fail ("C08", "nsync_note_expiry of note %d is later than its parent's", i);
 		}
 	}
 	if (fam == 0) {
